@@ -23,6 +23,8 @@
 #include "vf.h"
 
 #if VF_HASH == 256
+# include "crypto/cryptoImpl.h"
+static void sha256_compress(psSha256_t *c, const unsigned char *buf); /* see the SHA-512 branch */
 # include "crypto/digest/sha256.c"
 # define CTX psSha256_t
 # define BLK 64
@@ -36,6 +38,8 @@
 # define COMPRESS_DEF static void sha256_compress(psSha256_t *c, const unsigned char *buf)
 # define COMPRESS_BUF buf
 #elif VF_HASH == 1
+# include "crypto/cryptoImpl.h"
+static void sha1_compress(psSha1_t *c); /* see the SHA-512 branch */
 # include "crypto/digest/sha1.c"
 # define CTX psSha1_t
 # define BLK 64
@@ -49,6 +53,10 @@
 # define COMPRESS_DEF static void sha1_compress(psSha1_t *c)
 # define COMPRESS_BUF c->buf
 #elif VF_HASH == 512
+/* forward declaration: the derived unit renames only the definition, and a
+   native compiler rejects a static definition after an implicit declaration */
+# include "crypto/cryptoImpl.h"
+static void sha512_compress(psSha512_t *c, const unsigned char *buf);
 # include "crypto/digest/sha512.c"
 # define CTX psSha512_t
 # define BLK 128
